@@ -235,7 +235,8 @@ def find_loops(body):
 
 
 class World:
-    def __init__(self, tmpl_path, repo):
+    def __init__(self, tmpl_path, repo, canary_mode=False):
+        self.canary_mode = canary_mode
         self.tmpl_path = tmpl_path
         self.repo = repo
         self.files = {}
@@ -243,6 +244,8 @@ class World:
         self.linemap = []        # per emitted line: dict(fn=<id>|None, label=<str>|None, part=sig|contract|body|tmpl)
         self.functions = []      # dict per extracted fn
         self.dropped = []
+        self.canaries = []       # (name, fn id, text)
+        self.cur_impl = None     # (indent, header text) of the template impl block being emitted
 
     def sf(self, rel):
         if rel not in self.files:
@@ -268,15 +271,18 @@ class World:
                     d.update(_parse_kv(tl[i].strip()[4:]))
                     i += 1
                 contract = []      # (label, text)
+                clause_tags = {}
                 loops = {}
                 cur = contract
                 while i < len(tl) and tl[i].strip() != "//@end":
                     t = tl[i].strip()
                     if t.startswith("//@|"):
                         c = t[4:]
-                        m = re.match(r"\s*\[([A-Za-z0-9_.\-]+)\]\s*(.*)", c)
+                        m = re.match(r"\s*\[([A-Za-z0-9_.\-]+)(?:\s+@([A-Z0-9,]+))?\]\s*(.*)", c)
                         if m:
-                            cur.append((m.group(1), "        " + m.group(2)))
+                            cur.append((m.group(1), "        " + m.group(3)))
+                            if m.group(2):
+                                clause_tags[m.group(1)] = m.group(2).split(",")
                         else:
                             cur.append((None, c if c.startswith(" ") else " " + c))
                     elif t.startswith("//@loop "):
@@ -289,15 +295,38 @@ class World:
                 if i >= len(tl):
                     raise WorldError("unterminated //@fn block")
                 i += 1
-                self.emit_fn(d, contract, loops, indent=re.match(r"\s*", ln).group(0))
+                self.emit_fn(d, contract, loops, indent=re.match(r"\s*", ln).group(0), clause_tags=clause_tags)
+            elif s == "//@if canary":
+                i += 1
+                if not self.canary_mode:
+                    while i < len(tl) and tl[i].strip() != "//@endif":
+                        i += 1
+                    i += 1
+            elif s == "//@endif":
+                i += 1
+            elif s == "//@canaries":
+                self.emit_canaries(indent=re.match(r"\s*", ln).group(0))
+                i += 1
             elif s.startswith("//@struct "):
                 d = _parse_kv(s[len("//@struct "):])
                 self.emit_struct(d, indent=re.match(r"\s*", ln).group(0))
                 i += 1
             else:
+                if re.match(r"\s*impl\b", ln):
+                    hdr, k = ln, i
+                    while "{" not in tl[k] and k + 1 < len(tl):
+                        k += 1
+                        hdr += " " + tl[k].strip()
+                    self.cur_impl = (re.match(r"\s*", ln).group(0), hdr.split("{")[0].strip())
+                elif self.cur_impl and ln == self.cur_impl[0] + "}":
+                    self.cur_impl = None
                 self.emit(ln, part="tmpl")
                 i += 1
         return "\n".join(self.lines) + "\n"
+
+    def emit_canaries(self, indent=""):
+        for (name, fid, text) in self.canaries:
+            self.emit("\n".join(indent + l for l in text.split("\n")), part="canary", fn=fid, canary=name)
 
     def emit_struct(self, d, indent=""):
         """Copy a struct/enum definition; fields made pub (D10); attributes and where-clauses dropped."""
@@ -321,7 +350,7 @@ class World:
         self.functions.append(dict(id=f"{d.get('kind','struct')}:{d['name']}", file=d["file"], line=it.line, end_line=it.end_line,
                                    hash=body_hash(it.text), rules=log + ["D10"], kind="type"))
 
-    def emit_fn(self, d, contract, loops, indent=""):
+    def emit_fn(self, d, contract, loops, indent="", clause_tags=None):
         fid = d["id"]
         sf = self.sf(d["file"])
         impl_pat = d.get("impl")
@@ -360,6 +389,10 @@ class World:
                 body = body[:offs[k]] + "\n" + inv + "\n" + indent + "    " + body[offs[k]:]
         elif find_loops(body) and d.get("loops") != "none":
             raise ExtractError(f"{fid}: body has a loop but the contract has no invariant for it (outside the dialect)")
+        if d.get("canary") != "none":
+            c = make_canary(len(self.canaries), fid, head, contract, self.cur_impl[1] if self.cur_impl else None)
+            if c:
+                self.canaries.append((c[0], fid, c[1]))
         self.emit(indent + head.replace("\n", "\n" + indent), fn=fid, part="sig")
         if where_txt:
             self.emit(indent + "    " + " ".join(where_txt.split()), fn=fid, part="sig")
@@ -369,16 +402,127 @@ class World:
         self.functions.append(dict(id=fid, file=d["file"], impl=impl_pat, name=d["name"], line=it.line, end_line=it.end_line,
                                    hash=body_hash(it.text), rules=log, tags=[t for t in d.get("tags", "").split(",") if t],
                                    reading=d.get("reading", "total"), kind="fn",
-                                   clauses=[l for (l, _) in contract if l], cex=d.get("cex")))
+                                   clauses=[l for (l, _) in contract if l], cex=d.get("cex"),
+                                   clause_tags=clause_tags or {}, safety_tags=[t for t in d.get("safety", d.get("tags", "")).split(",") if t]))
 
 
-def build(tmpl_path, repo, out_path):
-    w = World(tmpl_path, repo)
+def _impl_parts(header):
+    """impl<G> Type where W  ->  (G, Type, W) ; None for trait impls."""
+    ct = code_tokens(lex(header))
+    if not ct or ct[0].text != "impl":
+        return None
+    k = 1
+    gen = ""
+    if k < len(ct) and ct[k].text == "<":
+        depth = 0
+        j = k
+        while j < len(ct):
+            if ct[j].text == "<":
+                depth += 1
+            elif ct[j].text == ">":
+                depth -= 1
+                if depth == 0:
+                    break
+            j += 1
+        gen = header[ct[k].start:ct[j].end]
+        k = j + 1
+    rest_start = ct[k].start
+    where = ""
+    ty_end = len(header)
+    depth = 0
+    for j in range(k, len(ct)):
+        t = ct[j]
+        if t.text == "<":
+            depth += 1
+        elif t.text == ">":
+            depth -= 1
+        elif t.kind == "ident" and t.text == "for" and depth == 0:
+            return None
+        elif t.kind == "ident" and t.text == "where" and depth == 0:
+            where = header[t.start:]
+            ty_end = t.start
+            break
+    return gen, header[rest_start:ty_end].strip(), where.strip().rstrip(",")
+
+
+def make_canary(k, fid, head, contract, impl_header):
+    """A proof fn with the function's preconditions and `ensures false`: it MUST fail to verify.
+    Returns (name, text) or None when the function has no precondition / is outside what we can restate."""
+    reqs, mode = [], None
+    for (_, t) in contract:
+        w = t.strip()
+        if w.startswith("requires"):
+            mode = "r"
+            w = w[len("requires"):].strip()
+        elif w.startswith("ensures") or w.startswith("decreases"):
+            mode = None
+        if mode == "r" and w:
+            reqs.append(w)
+    if not reqs:
+        return None
+    ct = code_tokens(lex(head))
+    # locate the parameter list
+    angle, k0 = 0, None
+    for i, t in enumerate(ct):
+        if t.text == "<":
+            angle += 1
+        elif t.text == ">" and not (i > 0 and ct[i - 1].text == "-"):
+            angle -= 1
+        elif t.text == "(" and angle == 0:
+            k0 = i
+            break
+    if k0 is None:
+        return None
+    k1 = match_bracket(ct, k0)
+    params = _split_top_commas(head[ct[k0].end:ct[k1].start])
+    fn_generics = ""
+    # generics of the fn itself: between fn name and "("
+    m = re.search(r"\bfn\s+[A-Za-z_0-9]+\s*(<.*>)\s*$", head[:ct[k0].start].strip(), flags=re.S)
+    if m:
+        fn_generics = m.group(1)
+    gen, ty, where = "", None, ""
+    if impl_header:
+        parts = _impl_parts(impl_header)
+        if parts is None:
+            return None
+        gen, ty, where = parts
+    out_params = []
+    for p in params:
+        q = p.strip()
+        if q in ("&mut self", "&self", "self", "mut self"):
+            if ty is None:
+                return None
+            out_params.append(f"s: {ty}")
+        else:
+            q = re.sub(r"^mut\s+", "", q)
+            if "impl " in q:
+                return None
+            out_params.append(q)
+    if fn_generics and gen:
+        generics = gen[:-1] + ", " + fn_generics[1:]
+    else:
+        generics = gen or fn_generics
+    req_txt = "\n        ".join(reqs)
+    req_txt = req_txt.replace("old(self)", "s")
+    req_txt = re.sub(r"\*?\bself\b", "s", req_txt)
+    if ty:
+        req_txt = re.sub(r"\bSelf\b", ty, req_txt)
+        out_params = [re.sub(r"\bSelf\b", ty, q) for q in out_params]
+    name = f"canary_{k}"
+    w = f"\n    {where}," if where else ""
+    text = (f"// canary for {fid}: preconditions must be satisfiable, so `ensures false` MUST fail\n"
+            f"pub proof fn {name}{generics}({', '.join(out_params)}){w}\n    requires\n        {req_txt}\n    ensures false,\n{{\n}}\n")
+    return name, text
+
+
+def build(tmpl_path, repo, out_path, canary_mode=False):
+    w = World(tmpl_path, repo, canary_mode)
     text = w.generate()
     os.makedirs(os.path.dirname(out_path), exist_ok=True)
     with open(out_path, "w") as f:
         f.write(text)
-    meta = dict(template=tmpl_path, out=out_path, functions=w.functions, linemap=w.linemap)
+    meta = dict(template=tmpl_path, out=out_path, functions=w.functions, linemap=w.linemap,
+                canaries=[dict(name=n, fn=f) for (n, f, _) in w.canaries])
     with open(out_path + ".map.json", "w") as f:
         json.dump(meta, f)
     return meta
